@@ -56,7 +56,7 @@ let rec stmt = function
   | x -> failwith ("rp: bad stmt " ^ to_string x)
 
 type rpcase = {
-  strict : bool; na : bool; twin : bool; cache : int option; onpanic : hop list option; onerror : hop list option;
+  fb : bool; strict : bool; na : bool; twin : bool; cache : int option; onpanic : hop list option; onerror : hop list option;
   stmts : stmt list; hs : (int * hop list) list;
   reqs : (n list * n list * nat list) list;   (* method, path, script *)
   late_stmts : stmt list; late_reqs : (n list * n list * nat list) list;   (* statements run after the requests, then more requests *)
@@ -68,8 +68,9 @@ let rec parse_case = function
     { c with late_stmts = List.map stmt lss;
              late_reqs = List.map (function L [m; p; L sc] -> (str m, str p, List.map nat sc) | x -> failwith ("rp: bad req " ^ to_string x)) lreqs }
   | L [A "rp"; L opts; L ss; L hs; L reqs] ->
-    let strict = ref false and na = ref false and twin = ref false and onp = ref None and one = ref None and cache = ref None in
+    let strict = ref false and na = ref false and twin = ref false and onp = ref None and one = ref None and cache = ref None and fb = ref false in
     List.iter (function
+        | L [A "fb"] -> fb := true           (* HandleFallbackRoute: an unmatched request goes to the "/*" route of its method *)
         | L [A "na"] -> na := true
         | L [A "strict"] -> strict := true
         | L [A "twin"] -> twin := true
@@ -77,7 +78,7 @@ let rec parse_case = function
         | L [A "onpanic"; L ops] -> onp := Some (List.map hop ops)
         | L [A "onerror"; L ops] -> one := Some (List.map hop ops)
         | x -> failwith ("rp: bad option " ^ to_string x)) opts;
-    { strict = !strict; na = !na; twin = !twin; cache = !cache; onpanic = !onp; onerror = !one;
+    { fb = !fb; strict = !strict; na = !na; twin = !twin; cache = !cache; onpanic = !onp; onerror = !one;
       stmts = List.map stmt ss;
       (* (an optional third element names the way the handler is written: std = a net/http handler behind an adaptor) *)
       (* mal (in-place edit of the allowed-methods list handed to the handler) and sh (SetHandlers with an application-owned
@@ -130,6 +131,11 @@ let resolve c (routes : rroute list) m p =
   let found = match find m with
     | None when str_eqb m (str_of_ascii "HEAD") -> find (str_of_ascii "GET")
     | x -> x in
+  (* ... and with HandleFallbackRoute an unmatched request by the static "/*" route registered for its method *)
+  let star = str_of_ascii "/*" in
+  let found = match found with
+    | None when c.fb -> List.fold_left (fun acc r -> if str_eqb r.r_path star && List.exists (str_eqb m) r.r_methods then Some r else acc) None routes
+    | x -> x in
   match found with
   | Some r -> RRoute r
   | None ->
@@ -143,7 +149,7 @@ let resolve c (routes : rroute list) m p =
    table, with the route cache when enabled, then the dispatcher) - both extracted; this function only threads the pooled
    context and the router state through the requests and prints. *)
 let run_model (c : rpcase) =
-  let o = { o_strict = c.strict; o_na = c.na; o_fallback = false;
+  let o = { o_strict = c.strict; o_na = c.na; o_fallback = c.fb;
             o_caching = (c.cache <> None); o_cap = nat_of_int (match c.cache with Some n -> n | None -> 1000); o_intercept = [] } in
   match exec_block c.strict c.stmts rinit, sys_build o c.stmts with
   | Panic, _ | _, Panic -> None
